@@ -505,8 +505,9 @@ theorem C11_reader_releases_guarded :
     (∀ r ∈ Extracted.streamerReaderReleases, r = "guarded") ∧ Extracted.streamerReaderReleases ≠ [] ∧
     St.ofSource = {} := by
   refine ⟨?_, ?_, ?_⟩
-  · intro r hr; simp [Extracted.streamerReaderReleases] at hr; exact hr
-  · simp [Extracted.streamerReaderReleases]
+  · have h : Extracted.streamerReaderReleases.all (· == "guarded") = true := by decide
+    intro r hr; simpa using List.all_eq_true.mp h r hr
+  · decide
   · simp [St.ofSource, Extracted.streamerReaderReleases, Extracted.streamerBooksBeforeSend]
 
 /-- limits 2 messages: m1 is sent, nacked on the stream (commit), fetched and sent again before the
